@@ -2048,8 +2048,29 @@ skip_false_if_block(bool consider_elifs) {
   _save_comments = false;
 
   int c = skip_comment(get());
+  int prev_c = '\n';
   while (c != EOF) {
-    if (c == '#' && _start_of_line) {
+    if (c == '"' || (c == '\'' && !isalnum(prev_c) && prev_c != '_')) {
+      // A string or character literal: it may contain what looks like the
+      // start of a comment.  An unterminated literal ends with its line.  (A
+      // single quote directly after an alphanumeric is a digit separator or
+      // an apostrophe in skipped prose.)
+      int quote = c;
+      prev_c = c;
+      c = get();
+      while (c != EOF && c != '\n' && c != quote) {
+        if (c == '\\') {
+          c = get();
+          if (c == EOF) {
+            break;
+          }
+        }
+        c = get();
+      }
+      if (c == quote) {
+        c = skip_comment(get());
+      }
+    } else if (c == '#' && _start_of_line) {
       c = skip_whitespace(get());
 
       YYLTYPE loc;
@@ -2100,7 +2121,9 @@ skip_false_if_block(bool consider_elifs) {
         }
         level--;
       }
+      prev_c = '\n';
     } else {
+      prev_c = c;
       c = skip_comment(get());
     }
   }
